@@ -72,7 +72,12 @@ class ScratchDB:
                 if value is not DELETED:
                     self.wrapped_db[key] = value
                 elif do_deletes:
-                    self.wrapped_db.pop(key, None)
+                    # The wrapped database can itself be a ScratchDB (a batch opened
+                    # inside a batch), which supports deletion but not pop().
+                    try:
+                        del self.wrapped_db[key]
+                    except KeyError:
+                        pass
                 # if do_deletes is False, ignore deletes to underlying db
         finally:
             self.cache = {}
